@@ -9,23 +9,7 @@ verus!{
 // =====================================================================
 // lemmas (proof-only, hand-written)
 // =====================================================================
-pub open spec fn filter_by<T>(s: Seq<T>, keep: Seq<bool>) -> Seq<T>
-    decreases s.len()
-{
-    if s.len() == 0 || keep.len() != s.len() { Seq::empty() }
-    else {
-        let rest = filter_by(s.drop_last(), keep.drop_last());
-        if keep.last() { rest.push(s.last()) } else { rest }
-    }
-}
-pub proof fn lemma_filter_by<T>(s: Seq<T>, keep: Seq<bool>, pred: spec_fn(T) -> bool)
-    requires keep.len() == s.len(), forall|i: int| 0 <= i < s.len() ==> keep[i] == pred(s[i])
-    ensures filter_by(s, keep) == s.filter(pred)
-    decreases s.len()
-{
-    reveal(Seq::filter);
-    if s.len() == 0 { } else { lemma_filter_by(s.drop_last(), keep.drop_last(), pred); }
-}
+//@include common/filter_by.rs
 /// log_wf: indices strictly increasing along the log (hence one entry per index)
 pub open spec fn inc(s: Seq<LogEntry>) -> bool {
     forall|i: int, j: int| 0 <= i < j < s.len() ==> s[i].index < s[j].index
@@ -77,13 +61,6 @@ pub proof fn lemma_one_entry_per_index(s: Seq<LogEntry>, a: int, b: int)
 // =====================================================================
 // prelude (assumed): std functions vstd does not specify; types not extracted
 // =====================================================================
-pub assume_specification<T, A: core::alloc::Allocator, F: FnMut(&T) -> bool>[ Vec::<T, A>::retain ](v: &mut Vec<T, A>, f: F)
-    requires forall|x: &T| #[trigger] f.requires((x,)),
-    ensures
-        exists|keep: Seq<bool>| keep.len() == old(v)@.len()
-            && (forall|i: int| 0 <= i < keep.len() ==> f.ensures((&old(v)@[i],), #[trigger] keep[i]))
-            && final(v)@ == filter_by(old(v)@, keep),
-;
 pub enum RaftError { Storage(String) }
 pub type RaftResult<T> = Result<T, RaftError>;
 
